@@ -21,34 +21,48 @@ def _limit_memory(gb):
 
 
 def _run_procs(cmds, timeout_s, env=None, cwd=None, max_par=None, mem_gb=None):
-    """Runs commands concurrently. Returns list of (rc, seconds, timed_out, output_tail)."""
+    """Runs commands concurrently. Returns list of (rc, seconds, timed_out, output_tail).
+    Output goes to temporary files (a pipe would fill up and block a chatty child)."""
+    import tempfile
     max_par = max_par or common.NCPU
     res = [None] * len(cmds)
     pending = list(enumerate(cmds))
     running = []
+
+    def tail_of(f):
+        try:
+            f.flush()
+            f.seek(0, 2)
+            n = f.tell()
+            f.seek(max(0, n - 6000))
+            return f.read().decode("utf-8", "replace")
+        except Exception:
+            return ""
+        finally:
+            f.close()
+
     while pending or running:
         while pending and len(running) < max_par:
             i, c = pending.pop(0)
-            p = subprocess.Popen(c, stdout=subprocess.PIPE, stderr=subprocess.STDOUT, env=env or common.BASE_ENV, cwd=cwd or common.ROOT, text=True,
+            out = tempfile.TemporaryFile()
+            p = subprocess.Popen(c, stdout=out, stderr=subprocess.STDOUT, env=env or common.BASE_ENV, cwd=cwd or common.ROOT,
                                  preexec_fn=_limit_memory(mem_gb) if mem_gb else None)
-            running.append((i, p, time.time()))
+            running.append((i, p, time.time(), out))
         still = []
-        for (i, p, t0) in running:
+        for (i, p, t0, out) in running:
             rc = p.poll()
             if rc is None:
                 if time.time() - t0 > timeout_s:
                     p.kill()
-                    out = ""
                     try:
-                        out = p.communicate(timeout=5)[0] or ""
+                        p.wait(timeout=5)
                     except Exception:
                         pass
-                    res[i] = (None, time.time() - t0, True, out[-4000:])
+                    res[i] = (None, time.time() - t0, True, tail_of(out)[-4000:])
                 else:
-                    still.append((i, p, t0))
+                    still.append((i, p, t0, out))
             else:
-                out = p.stdout.read() if p.stdout else ""
-                res[i] = (rc, time.time() - t0, False, (out or "")[-4000:])
+                res[i] = (rc, time.time() - t0, False, tail_of(out)[-4000:])
         running = still
         if running:
             time.sleep(0.02)
